@@ -23,3 +23,24 @@ Definition case_ok (c : case08) : bool :=
   end.
 
 Definition mismatches (cs : list case08) : list nat := failing case_ok cs.
+
+(* Histories over a pool of live graphs (C08 "any sequence of these operations"): the
+   model is functional, so a step changes the slot it writes and nothing else.  A step
+   of the real code is printed as one [One] case for the slot written and one [Frame]
+   case for every other live graph, whose structure (identifiers in order, edges, root
+   elements in order) must be what it was before the call. *)
+Definition struct_same (a b : nodelist) : bool :=
+  strs_eqb (map n_id (nl_nodes a)) (map n_id (nl_nodes b))
+  && strs_eqb (nl_root_elements a) (nl_root_elements b)
+  && nodelist_eqb {| nl_nodes := []; nl_edges := canon_edges (nl_edges a); nl_root_elements := [] |}
+                  {| nl_nodes := []; nl_edges := canon_edges (nl_edges b); nl_root_elements := [] |}.
+
+Inductive case08x := One (c : case08) | Frame (before after : nodelist).
+
+Definition case_ok_x (c : case08x) : bool :=
+  match c with
+  | One c => case_ok c
+  | Frame b a => struct_same b a
+  end.
+
+Definition mismatches_x (cs : list case08x) : list nat := failing case_ok_x cs.
